@@ -553,7 +553,7 @@ pub fn drive(log: &mut Log) {
         (64, 64, 63), (64, 64, 64), (0, 64, 65), (0, 64, 100), (64, 8, 5), (8, 16, 3),
     ];
     let nvar = log.opts.n(2, 8);
-    let hq = if log.opts.thorough() { 1 } else { 2 }; // quick tier: fewer hits per search
+    let hq = if log.opts.thorough() { 1 } else { 3 }; // quick tier: fewer hits per search
     let mut combo: u64 = 0;
     for &(ws, wl, m) in &plan {
         combo += 1;
